@@ -159,7 +159,7 @@ pub fn generate(r: &mut Rng, contradictory: bool) -> Generated {
                 2 => Truth::DynArray { element: pick(r, &truths) },
                 _ => Truth::FixedArray {
                     element: pick(r, &truths),
-                    length:  *r.pick(&[3u64, 5, 10]),
+                    length:  *r.pick(&[3u64, 5, 10, evidence::WIDE_LENGTH]),
                 },
             }
         };
@@ -175,6 +175,7 @@ pub fn generate(r: &mut Rng, contradictory: bool) -> Generated {
             class_of.push(c);
         }
     }
+    let n_original = class_of.len();
     let mut judgements: Vec<(usize, Ev)> = Vec::new();
     let mut emitted: Vec<Vec<Ev>> = vec![Vec::new(); n_classes];
     let mut pushed_words = 0usize;
@@ -190,8 +191,22 @@ pub fn generate(r: &mut Rng, contradictory: bool) -> Generated {
     // A component variable of class k: an existing one, or a fresh one equated
     // to an existing one.
     let component = |r: &mut Rng, k: usize, class_of: &mut Vec<usize>, vars_of: &mut Vec<Vec<usize>>, judgements: &mut Vec<(usize, Ev)>| -> usize {
-        if vars_of[k].len() < 600 && FORCE_FRESH.with(std::cell::Cell::get) {
-            // (many-pieces mode) always a fresh element variable
+        if vars_of[k].len() < 1600 && FORCE_FRESH.with(std::cell::Cell::get) {
+            // (many-pieces mode) always a fresh element variable; half of
+            // them are tied to their class by nothing but the constructor
+            // merge that the piece of evidence takes part in
+            // (only in sets without a contradiction: a conflicted class
+            // does not unify its components, and evidence that only meets in
+            // a later round is the grouping question C16 owns)
+            // (the first fresh variable of a class is always equated, to one
+            // of the class's original variables, so that the elements as a
+            // whole stay tied to the class)
+            if !contradictory && vars_of[k].iter().any(|v| *v >= n_original) && r.chance(1, 2) {
+                let fresh = class_of.len();
+                class_of.push(k);
+                vars_of[k].push(fresh);
+                return fresh;
+            }
         } else if r.chance(1, 2) {
             return *r.pick(&vars_of[k]);
         }
@@ -220,8 +235,14 @@ pub fn generate(r: &mut Rng, contradictory: bool) -> Generated {
         // Now and then one array class carries hundreds of distinct pieces
         // (each over its own fresh-but-equated element variable).
         let many = !minimal && c == many_class;
+        // ... and now and then all of them are stated about one variable,
+        // more than a thousand of them
+        let one_holder = many && r.chance(1, 3);
+        let the_holder = *r.pick(&vars_of[c]);
         let n_ev = if minimal {
             1
+        } else if one_holder {
+            1050 + r.usize_below(300)
         } else if many {
             260 + r.usize_below(200)
         } else {
@@ -229,7 +250,7 @@ pub fn generate(r: &mut Rng, contradictory: bool) -> Generated {
         };
         FORCE_FRESH.with(|f| f.set(many));
         for _ in 0..n_ev {
-            let holder = *r.pick(&vars_of[c]);
+            let holder = if one_holder { the_holder } else { *r.pick(&vars_of[c]) };
             let e = if !minimal && r.chance(1, 8) {
                 Ev::Any
             } else {
@@ -380,6 +401,7 @@ pub fn generate(r: &mut Rng, contradictory: bool) -> Generated {
                             element,
                             length: *length + 1,
                         },
+                        _ if *length >= evidence::WIDE_LENGTH_BASE => Ev::FixedArray { element, length: 3 },
                         1 => Ev::FixedArrayBig {
                             element,
                             hi: 1,
@@ -454,7 +476,7 @@ pub fn generate_deep(r: &mut Rng) -> Generated {
             0 => Truth::DynArray { element: i - 1 },
             1 => Truth::FixedArray {
                 element: i - 1,
-                length:  *r.pick(&[3u64, 5]),
+                length:  *r.pick(&[3u64, 5, evidence::WIDE_LENGTH]),
             },
             _ => {
                 // mapping with a shared word key class (added below)
@@ -580,7 +602,7 @@ fn expected_kind(model: &Model, c: usize) -> String {
         Truth::DynBytes => "DynBytes".into(),
         Truth::Mapping { .. } => "Mapping".into(),
         Truth::DynArray { .. } => "DynArray".into(),
-        Truth::FixedArray { length, .. } => format!("FixedArray[{length}]"),
+        Truth::FixedArray { length, .. } => format!("FixedArray[{}]", evidence::real_length(*length)),
         Truth::Packed { spans } => {
             let is_struct = model.emitted[c].iter().any(|e| matches!(e, Ev::Packed { is_struct: true, .. }));
             format!(
@@ -787,7 +809,7 @@ impl Check for C15Check {
             res.fault("contradictory_array_length_injected");
         }
         for (six, sched) in schedules(seed).into_iter().enumerate() {
-            let mode = Delivery::for_schedule(six);
+            let mode = Delivery::for_schedule(six, seed);
             let o = run_unify(
                 &g.ev,
                 &sched,
@@ -842,6 +864,19 @@ impl Check for C15Check {
                 ..UnifyOpts::default()
             },
         );
+        if std::env::var_os("SLX_DEBUG").is_some() {
+            eprintln!(
+                "debug: error={:?} budget_exhausted={} polls={} rounds={} n_vars={} n_after={}",
+                o.error, o.budget_exhausted, o.polls, o.record.unify_rounds, g.ev.n_vars, o.n_after
+            );
+            let mut by_real: std::collections::BTreeMap<(usize, usize), Vec<usize>> = Default::default();
+            for (v, c) in g.model.class_of.iter().enumerate() {
+                by_real.entry((*c, o.class[v])).or_default().push(v);
+            }
+            for ((c, real), vs) in &by_real {
+                eprintln!("debug: model class {c} real class {real}: {} vars, first {:?}; data {:?}", vs.len(), &vs[..vs.len().min(6)], o.data[*real].as_ref().map(|d| d.iter().map(evidence::te_kind).collect::<Vec<_>>()));
+            }
+        }
         Ok(compare(&g, &o).map(|(sig, detail)| Violation {
             property:  "C15".into(),
             signature: sig,
